@@ -1,9 +1,9 @@
 """C03 -- written images are structurally valid ISO9660 for an independent reader.  DESIGN.md section 8.3."""
 from harness import common, sysimg, sysprops
-from harness.props import packleaf
+from harness.props import packleaf, ptableleaf
 
 MODULE = 'C03'
-THEOREMS = ['C03_records_inside_blocks', 'C03_written_where_cached', 'C03_writer_test_is_decisive', 'C03_restart_sound', 'C03_dir_length_inv', 'C03_insert_le1', 'C03_remove_le0', 'C03_ptr_extents_inv', 'C03_nonvacuous',
+THEOREMS_BASE = ['C03_records_inside_blocks', 'C03_written_where_cached', 'C03_writer_test_is_decisive', 'C03_restart_sound', 'C03_dir_length_inv', 'C03_insert_le1', 'C03_remove_le0', 'C03_ptr_extents_inv', 'C03_nonvacuous',
             'C03_recalculate_is_the_model', 'C03_recalculate_from_zero']
 RECIPES = ['exact_fill', 'exact_fill_root', 'exact_fill_minus', 'exact_fill_plus', 'ptable_boundary',
            'ptable_boundary_dup_late', 'big_records', 'deep_tree']
@@ -12,10 +12,11 @@ RECIPES = ['exact_fill', 'exact_fill_root', 'exact_fill_minus', 'exact_fill_plus
 def oracle(b, report):
     sysimg.oracle_c03(b, report)
     packleaf.oracle_positions(b, report)
+    ptableleaf.collect(b)
 
 
 def run(ctx):
-    common.proof_stage(ctx, MODULE, THEOREMS)
+    common.proof_stage(ctx, MODULE, common.theorems_of(MODULE))
     common.setup_impl_path()
     packleaf.leaf_correspondence(ctx)
     packleaf.translated_correspondence(ctx)
@@ -34,6 +35,7 @@ def run(ctx):
         sysprops.run_oracle(ctx, 'C03', iter([(label + '+write-in-between', cfg, ops, sizes)]), oracle, max_shrink=1,
                             build_kwargs={'schedule': {k: ['write'] for k in ks}})
     packleaf.flush_image_cases(ctx)
+    ptableleaf.flush(ctx)
     ctx.cov['rule'] = ('images of random edit histories over a pairwise-covering configuration set plus boundary recipes '
                        '(directory block filled exactly / one record short / one over, path table crossing 4096 bytes with a '
                        'duplicate PVD created before or after, 228-byte records with removals, trees deeper than 8); every image '
